@@ -128,10 +128,17 @@ void file::save_by_copy(std::string const &file_name,std::istream &in)
 	if(!f) {
 		throw cppcms_error("Failed to save open file:"+file_name);
 	}
-	copy_stream(in,f);
+	// an empty upload is legal, but operator<<(streambuf *) sets failbit when it copies nothing
+	if(in.peek()!=std::char_traits<char>::eof())
+		copy_stream(in,f);
+	else
+		in.clear();
 	f << std::flush;
 	f.close();
-
+	// the caller removes its own copy once it is told that the file was saved
+	if(!f) {
+		throw cppcms_error("Failed to write to file "+file_name);
+	}
 }
 
 void file::set_memory_limit(size_t size)
